@@ -15,6 +15,14 @@ mod c07;
 mod c08;
 mod c12;
 mod c13;
+mod c14;
+mod c01;
+mod c16;
+mod c17;
+mod c17_cfg;
+mod c17_real;
+mod c06;
+mod c15;
 mod rng;
 
 use std::collections::HashMap;
@@ -70,6 +78,13 @@ fn main() {
         "mmcs" => c08::main(&args),
         "decomp" => c12::main(&args),
         "c13" => c13::main(&args),
+        "packing" => c14::main(&args),
+        "starkfaults" => c01::main(&args),
+        "metadata" => c16::main(&args),
+        "layers" => c17::main(&args),
+        "binding" => c06::main(&args),
+        "malformed" => c15::main(&args),
+        "malformed-worker" => c15::worker_main(&args),
         _ => {
             eprintln!("unknown subcommand {cmd}");
             std::process::exit(2);
